@@ -256,6 +256,7 @@ ALPHABET_MORE = [
     ('keys', ()), ('keys', (0,)), ('keys', (0, 0)), ('isp_self',), ('zip_self',), ('kzip_b', 0),
     ('batch', 1, False), ('batch', 3, False), ('batch', 3, True), ('tile', 1), ('tile', 3), ('sort', True), ('sort_nokey', False),
     ('split', 1, 0), ('split', 2, 0), ('split', 3, 2), ('shard', 2, 0), ('shard', 3, 1), ('pf1', 1), ('pfw', 2, 3), ('pfw', 1, 1, 'thread'),
+    ('isp3', 3, 4), ('isp3', 3, 5), ('isp3', 5, 2), ('isp3', 1, 3),
     ('parmap', 1, 1),
 ]
 ALPHABET = ALPHABET_QUICK + ALPHABET_MORE
@@ -270,6 +271,8 @@ def max_len(n, ops):
             L = 2 * L
         elif k in ('cat_b', 'isp_b'):
             L = L + NY
+        elif k == 'isp3':
+            L = L + op[1] + op[2]
         elif k == 'isp_self':
             L = 2 * L
         elif k == 'tile':
@@ -407,6 +410,26 @@ def apply_op(ds, ref, op, pool, ys, fns, rng):
         out = ds.intersperse(dsb)
         order = intersperse_order([len(R.vals), len(rb.vals)])
         parts = [R, rb]
+        cat = ref_concat(parts)
+        vals = [parts[d].vals[i] for d, i in order]
+        keys = [parts[d].keys[i] for d, i in order] if cat.keys is not None else None
+        return out, cat.clone(vals=vals, keys=keys)
+    if k == 'isp3':
+        # intersperse(ds, B, C): B has op[1] and C has op[2] examples (values cycle through ys; own keys)
+        lb, lc = op[1], op[2]
+        bv = [ys[j % NY] for j in range(lb)]
+        cv = [ys[(j + 1) % NY] for j in range(lc)]
+        if R.keys is not None:
+            dsb, rb = DictDataset({f'b{j}': v for j, v in enumerate(bv)}), Ref(bv, [f'b{j}' for j in range(lb)])
+            dsc, rc = DictDataset({f'c{j}': v for j, v in enumerate(cv)}), Ref(cv, [f'c{j}' for j in range(lc)])
+        else:
+            dsb, rb = ListDataset(bv), Ref(bv, None)
+            dsc, rc = ListDataset(cv), Ref(cv, None)
+        if not (R.has_len and len(R.vals) > 0):
+            return _must_refuse(lambda: ds.intersperse(dsb, dsc), R)
+        out = ds.intersperse(dsb, dsc)
+        parts = [R, rb, rc]
+        order = intersperse_order([len(p.vals) for p in parts])
         cat = ref_concat(parts)
         vals = [parts[d].vals[i] for d, i in order]
         keys = [parts[d].keys[i] for d, i in order] if cat.keys is not None else None
